@@ -10,6 +10,11 @@ use asn1rs_model::asn::Charset;
 use std::fmt::Debug;
 use std::ops::Range;
 
+/// ITU-T X.691 | ISO/IEC 8825-2:2015, chapter 11.9.3.8
+const FRAGMENT_SIZE: u64 = 16 * 1024;
+/// ITU-T X.691 | ISO/IEC 8825-2:2015, chapter 11.9.4.2
+const LENGTH_64K: u64 = 64 * 1024;
+
 pub use crate::protocol::per::unaligned::buffer::Bits;
 pub use crate::protocol::per::unaligned::ScopedBitRead;
 
@@ -379,6 +384,64 @@ impl UperWriter {
 
         Ok(out_of_range)
     }
+
+    /// Writes the extensible bit (if any) and the length determinant followed by the items. If the
+    /// length is not encoded as constrained number, 16K items or more are written in fragments,
+    /// each with its own length determinant (ITU-T X.691 | ISO/IEC 8825-2:2015, chapter 11.9.3.8)
+    #[inline]
+    pub fn write_length_and_items<F: FnMut(&mut Self, usize) -> Result<(), Error>>(
+        &mut self,
+        extensible: bool,
+        min: Option<u64>,
+        max: Option<u64>,
+        upper_limit: u64,
+        len: u64,
+        mut write_item: F,
+    ) -> Result<(), Error> {
+        let unwrapped_min = const_unwrap_or!(min, 0);
+        let unwrapped_max = const_unwrap_or!(max, upper_limit);
+        let out_of_range = len < unwrapped_min || len > unwrapped_max;
+
+        if extensible {
+            self.bits.write_bit(out_of_range)?;
+        }
+
+        let fragment_size = if out_of_range {
+            if !extensible {
+                return Err(ErrorKind::SizeNotInRange(len, unwrapped_min, unwrapped_max).into());
+            } else {
+                self.bits.write_length_determinant(None, None, len)?
+            }
+        } else {
+            self.bits.write_length_determinant(min, max, len)?
+        };
+
+        for index in 0..fragment_size.unwrap_or(len) {
+            write_item(self, index as usize)?;
+        }
+
+        if let Some(mut written) = fragment_size {
+            loop {
+                let remaining = len - written;
+                let fragment_size = self
+                    .bits
+                    .write_length_determinant(None, None, remaining)?
+                    .unwrap_or(remaining);
+
+                for index in written..written + fragment_size {
+                    write_item(self, index as usize)?;
+                }
+
+                if fragment_size < FRAGMENT_SIZE {
+                    break;
+                }
+
+                written += fragment_size;
+            }
+        }
+
+        Ok(())
+    }
 }
 
 impl Writer for UperWriter {
@@ -439,20 +502,14 @@ impl Writer for UperWriter {
     ) -> Result<(), Self::Error> {
         self.write_bit_field_entry(false, true)?;
         self.scope_stashed(|w| {
-            w.write_extensible_bit_and_length_or_err(
+            w.write_length_and_items(
                 C::EXTENSIBLE,
                 C::MIN,
                 C::MAX,
                 i64::MAX as u64,
                 slice.len() as u64,
-            )?;
-
-            w.scope_stashed(|w| {
-                for value in slice {
-                    T::write_value(w, value)?;
-                }
-                Ok(())
-            })
+                |w, index| T::write_value(w, &slice[index]),
+            )
         })
     }
 
@@ -612,20 +669,17 @@ impl Writer for UperWriter {
         self.with_buffer(|w| {
             Error::ensure_string_valid(Charset::Ia5, value)?;
 
-            w.write_extensible_bit_and_length_or_err(
+            // the string is valid, thus each character is a single byte
+            let chars = value.as_bytes();
+            w.write_length_and_items(
                 C::EXTENSIBLE,
                 C::MIN,
                 C::MAX,
                 u64::MAX,
-                value.chars().count() as u64,
-            )?;
-
-            for char in value.chars().map(|c| c as u8) {
+                chars.len() as u64,
                 // 7 bits
-                w.bits.write_bits_with_offset(&[char], 1)?;
-            }
-
-            Ok(())
+                |w, index| w.bits.write_bits_with_offset(&[chars[index]], 1),
+            )
         })
     }
 
@@ -638,23 +692,22 @@ impl Writer for UperWriter {
         self.with_buffer(|w| {
             Error::ensure_string_valid(Charset::Numeric, value)?;
 
-            w.write_extensible_bit_and_length_or_err(
+            // the string is valid, thus each character is a single byte
+            let chars = value.as_bytes();
+            w.write_length_and_items(
                 C::EXTENSIBLE,
                 C::MIN,
                 C::MAX,
                 u64::MAX,
-                value.chars().count() as u64,
-            )?;
-
-            for char in value.chars().map(|c| c as u8) {
-                let char = match char - 32 {
-                    0 => 0,
-                    c => c - 15,
-                };
-                w.bits.write_bits_with_offset(&[char], 4)?;
-            }
-
-            Ok(())
+                chars.len() as u64,
+                |w, index| {
+                    let char = match chars[index] - 32 {
+                        0 => 0,
+                        c => c - 15,
+                    };
+                    w.bits.write_bits_with_offset(&[char], 4)
+                },
+            )
         })
     }
 
@@ -667,19 +720,16 @@ impl Writer for UperWriter {
         self.with_buffer(|w| {
             Error::ensure_string_valid(Charset::Printable, value)?;
 
-            w.write_extensible_bit_and_length_or_err(
+            // the string is valid, thus each character is a single byte
+            let chars = value.as_bytes();
+            w.write_length_and_items(
                 C::EXTENSIBLE,
                 C::MIN,
                 C::MAX,
                 u64::MAX,
-                value.chars().count() as u64,
-            )?;
-
-            for char in value.chars() {
-                w.bits.write_bits_with_offset(&[char as u8], 1)?;
-            }
-
-            Ok(())
+                chars.len() as u64,
+                |w, index| w.bits.write_bits_with_offset(&[chars[index]], 1),
+            )
         })
     }
 
@@ -692,19 +742,16 @@ impl Writer for UperWriter {
         self.with_buffer(|w| {
             Error::ensure_string_valid(Charset::Visible, value)?;
 
-            w.write_extensible_bit_and_length_or_err(
+            // the string is valid, thus each character is a single byte
+            let chars = value.as_bytes();
+            w.write_length_and_items(
                 C::EXTENSIBLE,
                 C::MIN,
                 C::MAX,
                 u64::MAX,
-                value.chars().count() as u64,
-            )?;
-
-            for char in value.chars() {
-                w.bits.write_bits_with_offset(&[char as u8], 1)?;
-            }
-
-            Ok(())
+                chars.len() as u64,
+                |w, index| w.bits.write_bits_with_offset(&[chars[index]], 1),
+            )
         })
     }
 
@@ -824,6 +871,43 @@ impl<B: ScopedBitRead> UperReader<B> {
                 result.clone(),
             ));
         result
+    }
+
+    /// Reads the extensible bit (if any) and the length determinant and calls the closure with
+    /// the number of items to read - again for each further fragment (ITU-T X.691 | ISO/IEC
+    /// 8825-2:2015, chapter 11.9.3.8)
+    #[inline]
+    #[allow(clippy::redundant_pattern_matching)] // allow for const_*!
+    fn read_length_and_items<F: FnMut(&mut Self, u64) -> Result<(), Error>>(
+        &mut self,
+        extensible: bool,
+        min: Option<u64>,
+        max: Option<u64>,
+        mut read_items: F,
+    ) -> Result<(), Error> {
+        let (len, fragmentation_possible) = if extensible && self.bits.read_bit()? {
+            (self.read_length_determinant(None, None)?, true)
+        } else {
+            (
+                self.read_length_determinant(min, max)?,
+                // a constrained length (upper bound below 64K) is never fragmented
+                !(const_is_some!(max) && const_unwrap_or!(max, 0) < LENGTH_64K),
+            )
+        };
+
+        read_items(self, len)?;
+
+        if fragmentation_possible && len >= FRAGMENT_SIZE {
+            loop {
+                let len = self.read_length_determinant(None, None)?;
+                read_items(self, len)?;
+                if len < FRAGMENT_SIZE {
+                    break;
+                }
+            }
+        }
+
+        Ok(())
     }
 
     #[inline]
@@ -1022,28 +1106,17 @@ impl<B: ScopedBitRead> Reader for UperReader<B> {
         let _ = self.read_bit_field_entry(false)?;
         #[allow(clippy::let_and_return)]
         self.with_buffer(|r| {
-            let len = if C::EXTENSIBLE {
-                let extensible = r.bits.read_bit()?;
-                if extensible {
-                    r.read_length_determinant(None, None)?
-                } else {
-                    r.read_length_determinant(C::MIN, C::MAX)?
-                }
-            } else {
-                r.read_length_determinant(C::MIN, C::MAX)?
-            };
-
-            if len > 0 {
-                r.scope_stashed(|r| {
-                    let mut vec = Vec::with_capacity(len as usize);
+            r.scope_stashed(|r| {
+                let mut vec = Vec::new();
+                r.read_length_and_items(C::EXTENSIBLE, C::MIN, C::MAX, |r, len| {
+                    vec.reserve(len as usize);
                     for _ in 0..len {
                         vec.push(T::read_value(r)?);
                     }
-                    Ok(vec)
-                })
-            } else {
-                Ok(Vec::new())
-            }
+                    Ok(())
+                })?;
+                Ok(vec)
+            })
         })
     }
 
@@ -1231,16 +1304,15 @@ impl<B: ScopedBitRead> Reader for UperReader<B> {
         let _ = self.read_bit_field_entry(false)?;
         #[allow(clippy::let_and_return)]
         let result = self.with_buffer(|r| {
-            let len = if C::EXTENSIBLE && r.bits.read_bit()? {
-                r.read_length_determinant(None, None)?
-            } else {
-                r.read_length_determinant(C::MIN, C::MAX)?
-            };
-
-            let mut buffer = vec![0u8; len as usize];
-            for i in 0..len as usize {
-                r.bits.read_bits_with_offset(&mut buffer[i..i + 1], 1)?;
-            }
+            let mut buffer = Vec::new();
+            r.read_length_and_items(C::EXTENSIBLE, C::MIN, C::MAX, |r, len| {
+                let offset = buffer.len();
+                buffer.resize(offset + len as usize, 0u8);
+                for i in offset..buffer.len() {
+                    r.bits.read_bits_with_offset(&mut buffer[i..i + 1], 1)?;
+                }
+                Ok(())
+            })?;
 
             String::from_utf8(buffer).map_err(|e| ErrorKind::FromUtf8Error(e).into())
         });
@@ -1261,20 +1333,19 @@ impl<B: ScopedBitRead> Reader for UperReader<B> {
         let _ = self.read_bit_field_entry(false)?;
         #[allow(clippy::let_and_return)]
         let result = self.with_buffer(|r| {
-            let len = if C::EXTENSIBLE && r.bits.read_bit()? {
-                r.read_length_determinant(None, None)?
-            } else {
-                r.read_length_determinant(C::MIN, C::MAX)?
-            };
-
-            let mut buffer = vec![0u8; len as usize];
-            for i in 0..len as usize {
-                r.bits.read_bits_with_offset(&mut buffer[i..i + 1], 4)?;
-                match buffer[i] {
-                    0_u8 => buffer[i] = 32_u8,
-                    c => buffer[i] = 32_u8 + 15 + c,
+            let mut buffer = Vec::new();
+            r.read_length_and_items(C::EXTENSIBLE, C::MIN, C::MAX, |r, len| {
+                let offset = buffer.len();
+                buffer.resize(offset + len as usize, 0u8);
+                for i in offset..buffer.len() {
+                    r.bits.read_bits_with_offset(&mut buffer[i..i + 1], 4)?;
+                    match buffer[i] {
+                        0_u8 => buffer[i] = 32_u8,
+                        c => buffer[i] = 32_u8 + 15 + c,
+                    }
                 }
-            }
+                Ok(())
+            })?;
 
             String::from_utf8(buffer).map_err(|e| ErrorKind::FromUtf8Error(e).into())
         });
@@ -1297,16 +1368,14 @@ impl<B: ScopedBitRead> Reader for UperReader<B> {
         let _ = self.read_bit_field_entry(false)?;
         #[allow(clippy::let_and_return)]
         let result = self.with_buffer(|r| {
-            let len = if C::EXTENSIBLE && r.bits.read_bit()? {
-                r.read_length_determinant(None, None)?
-            } else {
-                r.read_length_determinant(C::MIN, C::MAX)?
-            };
-
-            let mut buffer = vec![0u8; len as usize];
-            buffer
-                .chunks_exact_mut(1)
-                .try_for_each(|chunk| r.bits.read_bits_with_offset(chunk, 1))?;
+            let mut buffer = Vec::new();
+            r.read_length_and_items(C::EXTENSIBLE, C::MIN, C::MAX, |r, len| {
+                let offset = buffer.len();
+                buffer.resize(offset + len as usize, 0u8);
+                buffer[offset..]
+                    .chunks_exact_mut(1)
+                    .try_for_each(|chunk| r.bits.read_bits_with_offset(chunk, 1))
+            })?;
 
             String::from_utf8(buffer).map_err(|e| ErrorKind::FromUtf8Error(e).into())
         });
@@ -1327,16 +1396,14 @@ impl<B: ScopedBitRead> Reader for UperReader<B> {
         let _ = self.read_bit_field_entry(false)?;
         #[allow(clippy::let_and_return)]
         let result = self.with_buffer(|r| {
-            let len = if C::EXTENSIBLE && r.bits.read_bit()? {
-                r.read_length_determinant(None, None)?
-            } else {
-                r.read_length_determinant(C::MIN, C::MAX)?
-            };
-
-            let mut buffer = vec![0u8; len as usize];
-            buffer
-                .chunks_exact_mut(1)
-                .try_for_each(|chunk| r.bits.read_bits_with_offset(chunk, 1))?;
+            let mut buffer = Vec::new();
+            r.read_length_and_items(C::EXTENSIBLE, C::MIN, C::MAX, |r, len| {
+                let offset = buffer.len();
+                buffer.resize(offset + len as usize, 0u8);
+                buffer[offset..]
+                    .chunks_exact_mut(1)
+                    .try_for_each(|chunk| r.bits.read_bits_with_offset(chunk, 1))
+            })?;
 
             String::from_utf8(buffer).map_err(|e| ErrorKind::FromUtf8Error(e).into())
         });
